@@ -47,6 +47,8 @@ def programs(tier):
                     # a user-defined marker relation (extension point) downstream of the transfer, in an iteration engine (what
                     # the SQL engine's conform does with foreign markers is outside the stated properties)
                     mids += [("tag", x), ("sel", ("tag", x), ("gt", meprogs.A, ("lit", "$k2")))]
+                    # user-defined operations (extension points): an order-dependent reordering and a row filter
+                    mids += [("custr", x), ("custr", ("sort", x, ((meprogs.B, False), (meprogs.A, True)))), ("cust", x)]
                 for mid in mids:
                     for lab in finals:
                         for o in optsets:
